@@ -411,6 +411,9 @@ class ECU(UDSClient):
 
     async def start_cyclic_tester_present(self, interval: float) -> None:
         logger.debug("Starting tester present worker")
+        if self.tester_present_task is not None and not self.tester_present_task.done():
+            # There is only one worker: a second start replaces the running one.
+            await self.stop_cyclic_tester_present()
         self.tester_present_interval = interval
         coroutine = self._tester_present_worker(interval)
         self.tester_present_task = asyncio.create_task(coroutine)
